@@ -132,6 +132,7 @@ function __step(u, sp, kind, a, b, withParams) {
     case "append": sp.append(a, b); break; case "delete": sp.delete(a); break; case "set": sp.set(a, b); break; case "sort": sp.sort(); break;
     case "port": u.port = a; break; case "protocol": u.protocol = a; break; case "host": u.host = a; break; case "hostname": u.hostname = a; break;
     case "hash": u.hash = a; break; case "pathname": u.pathname = a; break;
+    case "username": u.username = a; break; case "password": u.password = a; break;
     }
   } catch (e) { threw = true }
   var o = JSON.parse(__obs(u, withParams, sp)); o.Threw = threw; return JSON.stringify(o);
@@ -170,7 +171,11 @@ function __step(u, sp, kind, a, b, withParams) {
 			case x < 18:
 				ops = append(ops, op{"hostname", r.Pick(hostnames), ""})
 			case x < 19:
-				ops = append(ops, op{"hash", r.Pick(hashes), ""})
+				if r.Chance(45) { // username / password: none of the modelled fields may move, the three serialisers stay equal, href re-parses
+					ops = append(ops, op{r.Pick([]string{"username", "password"}), r.Pick([]string{"", "u", "a:b", "a@b", "é", "%41", "a/b", "p w", "x?y#z", "[::1]"}), ""})
+				} else {
+					ops = append(ops, op{"hash", r.Pick(hashes), ""})
+				}
 			default:
 				ops = append(ops, op{"pathname", r.Pick(paths), ""})
 			}
@@ -294,6 +299,8 @@ function __step(u, sp, kind, a, b, withParams) {
 				}
 				pu, err := neturl.ParseRequestURI(sc + "://" + a)
 				hostOK[sc+"\x00"+a] = lib.Bool(err == nil && pu.Host == a)
+			case "username", "password":
+				coqOps = append(coqOps, "OUserinfo")
 			case "hash":
 				coqOps = append(coqOps, "OHash "+lib.ZsStr(a))
 			case "pathname":
